@@ -9,7 +9,7 @@ Trace == ndJsonDeserialize("cases.ndjson")
 VARIABLES l, bad, stats
 vars == <<l, bad, stats>>
 
-Judgeable(c) == \A k \in DOMAIN c.steps : /\ SingleCandidate(c.steps[k].outs, c.steps[k].lines)
+Judgeable(c) == \A k \in DOMAIN c.steps : /\ SingleCandidate(c.steps[k].outs, Seen(c.steps[k]))
                                           /\ \A i \in DOMAIN c.steps[k].outs : InFragment(c.steps[k].outs[i].pat)
 Labels(c) ==
   (IF c.verdict = "pass" /\ Judgeable(c) /\ ~SpecPass(c.steps) THEN {"false-pass"} ELSE {})
